@@ -277,6 +277,18 @@ def check_type(rep, name, m, r, ty, stats):
     c.run(want)
     stats["items"] += c.n
     stats["types"] += 1
+    # a constant length guard that demands more than the reads it protects rejects valid encodings (the rule is C16's,
+    # the consequence is this property's)
+    from .c16 import tight_guards
+
+    class _Over:
+        notes = rep.notes
+
+        @staticmethod
+        def add(key, what, where_, detail=None):
+            if key.endswith("|over"):
+                rep.add(key.replace("C16|", "C04|", 1), what, where_, detail)
+    tight_guards(_Over, name, ty, "decode_partial" if is_child else "decode", ev, {"guards": 0})
     # rejection inventory
     variants = [v for v, cnd, e in dl.checks]
     if is_child:
